@@ -45,6 +45,20 @@ pub fn run(prop: &str, tier: Tier, seed: i64, replay: Option<&str>) -> i32 {
             if prop == "C06" {
                 c11(&mut ck);
                 checksum_stage(&mut ck);
+                // the sweeps are additional sources of calls that must not panic
+                #[cfg(feature = "typed")]
+                {
+                    let (a, r) = sweeps::c08_sweep(tier);
+                    ck.add_stage(a, r);
+                    let (a, r) = sweeps::c18_sweep(tier);
+                    ck.add_stage(a, r);
+                }
+                let (a, r) = sweeps::c13_sweep(tier);
+                ck.add_stage(a, r);
+            }
+            if prop == "C13" {
+                let (a, r) = sweeps::c13_sweep(tier);
+                ck.add_stage(a, r);
             }
             if matches!(prop, "C04" | "C06") {
                 shapes_stage(&mut ck);
@@ -256,6 +270,26 @@ fn c11(ck: &mut Check) {
         if !res.fixpoint {
             ck.exhaustive = false;
         }
+        if !typed && ck.prop == "C11" {
+            // self-check of the explorer: stateright's BFS over the same step function
+            match std::env::var("C11_SR").ok().and_then(|p| std::fs::read_to_string(p).ok()).and_then(|t| serde_json::from_str::<Value>(&t).ok()) {
+                Some(v) => {
+                    let sr = v["unique_states"].as_u64().unwrap_or(0);
+                    // only meaningful when the implementation agrees with the reference (otherwise both
+                    // explorers see diverging states and Engine C's violations are the verdict)
+                    let agree = sr == reps.len() as u64 && sr == res.states && v["discoveries"].as_array().map(|d| d.is_empty()).unwrap_or(false) && v["done"] == json!(true);
+                    if !agree && res.acc.violation_count == 0 {
+                        println!("MACHINERY: explorer cross-check failed: Engine C found {} states ({} contents), stateright reports {}", res.states, reps.len(), v);
+                        std::process::exit(2);
+                    }
+                    ck.extra.insert("stateright_cross_check".into(), v);
+                },
+                None => {
+                    println!("MACHINERY: C11 needs the stateright cross-check report (run through ./check)");
+                    std::process::exit(2);
+                },
+            }
+        }
         ck.add_stage(
             res.acc,
             json!({"engine": "C-bfs", "model": m.name, "keys": m.keys, "invalid_keys": m.invalid, "values": m.values, "actions_per_state": m.acts.len(),
@@ -346,6 +380,7 @@ pub fn replay_case(prop: &'static str, case: &Value) -> Option<Vec<Violation>> {
             let s = case["input"].as_str()?;
             StringEval { prop, mon: monitors_for(prop) }.eval(s, &mut acc);
         },
+        "c13-flavors" => sweeps::c13_flavor_case(&BuildSpec::from_json(&case["spec"])?, &mut acc),
         "build" => {
             let spec = BuildSpec::from_json(&case["spec"])?;
             BuildEval { prop, mon: monitors_for(prop) }.eval(case["flavor"].as_str()?, &spec, &mut acc);
@@ -445,7 +480,7 @@ fn rule_for(prop: &str) -> &'static str {
         "C07" => "every node of the dot-segment and separator lenses and their typed copies; non-trivial = accepted and the input has a namespace or subpath region",
         "C08" => "sweep: every Unicode scalar value as name 'c' and 'xcx' for each of the seven types, every string up to the bound over {a A 1 - _ . E-acute titlecase-dz} for pypi and nuget, through builder and parser (name fully percent-encoded), every maven namespace up to 5 tokens over {/ a %2F .}; lenses: typed vs type-agnostic differential on every node; non-trivial = a typed value was produced or a typed/untyped disagreement had to be classified",
         "C10" => "every node of every token lens; non-trivial = accepted (into_builder().build() is then compared with the value)",
-        "C13" => "every node of the lenses parsed as String and as SmallString; non-trivial = accepted by the String instantiation (refusals are compared too)",
+        "C13" => "parser: every node of the lenses as String and as SmallString (acceptance, error text, accessors, canonical string compared); builder: every Unicode scalar value as type and after a letter, all ASCII pairs as type, all type strings up to the bound over {a z A Z m M 9 . + - ! E-acute}, and all pairs of field values over the 17-string universe x 4 types x 4 qualifier sets, each built with String, Cow::Owned, Cow::Borrowed and SmallString and the outcomes compared; non-trivial = accepted lens nodes and every builder case",
         "C15" => "all 2^len case variants of the seven names; every string up to the bound over the letters of the names in both cases plus look-alikes; every scalar value inserted at and substituted at every position of every name; deletions, transpositions, paddings, 35 other type names; non-trivial = every string except substitutions that reproduce the original letter",
         "C16" => "every node of the token lenses, every spelling with at most d deviations and every single-fault string of the spelling explorer, as GenericPurl<String> and Purl: deserialising the JSON string (serde_json::from_str, from_value, value::StringDeserializer) succeeds exactly when from_str does, with equal value and the same error text; serialising gives exactly the canonical string; JSON round trip is the identity; eight non-string JSON values around each accepted PURL are refused. Every string is non-trivial",
         "C17" => "one deterministic input stream (token lenses at n-1, spellings with at most one deviation, builder field pairs x qualifier sets x types) is run by the same harness source built once per feature set; outcome lines (error text, or type/accessors/canonical string) are hashed per chunk and the digests compared; non-trivial = every input of the stream (it is executed in every build)",
